@@ -22,11 +22,11 @@ RULE = ("1-4 destinations (one always-healthy reference at a random position, th
         "deliveries. non-trivial = >=2 faulty destinations or a mask that hits a report; distinct by (program shape, masks)")
 ASSUMPTIONS = ["destinations raise Exception subclasses", "single-threaded: the property quantifies over fault sequences and programs"]
 EXHAUSTIVE_NOTE = "part 'enum' enumerates every failure mask over the first K calls of D destinations"
-BATCH = 10
+BATCH = 100
 
 
 def plan(tier, seed):
-    n = 3000 if tier == "quick" else 60000
+    n = 20000 if tier == "quick" else 200000
     specs = [{"part": "random", "seed": seed, "lo": i, "hi": min(n, i + BATCH)} for i in range(0, n, BATCH)]
     combos = [(2, 4)] if tier == "quick" else [(2, 4), (3, 4), (2, 6), (1, 8)]
     for D, K in combos:
